@@ -186,7 +186,20 @@ def case_array(ctx, rng):
     ident = R.identity(sym)
     if op == "transpose":
         perm = tuple(rng.sample(range(x.ndim), x.ndim))
-        forms = {"method": lambda: x.transpose(perm), "function": lambda: sr.transpose(x, perm), "autoray": lambda: ar.do("transpose", x, perm)}
+        # the axes as users spell them: some counted from the end, as tuple / list / ndarray
+        parg = perm
+        if x.ndim and rng.random() < 0.35:
+            parg = tuple((p_ - x.ndim) if rng.random() < 0.5 else p_ for p_ in perm)
+            if any(p_ < 0 for p_ in parg):
+                ctx.count("feature", "transpose-axes-counted-from-the-end")
+                if any(p_ >= 0 for p_ in parg) and list(parg) == sorted(parg) and perm != tuple(range(x.ndim)):
+                    ctx.count("feature", "transpose-mixed-sign-axes-in-ascending-order")
+        r_ = rng.random()
+        if r_ < 0.2:
+            parg = list(parg)
+        elif r_ < 0.3:
+            parg = np.array(parg, dtype=np.int64)
+        forms = {"method": lambda: x.transpose(parg), "function": lambda: sr.transpose(x, parg), "autoray": lambda: ar.do("transpose", x, parg)}
         if rng.random() < 0.15:
             perm = tuple(range(x.ndim - 1, -1, -1))
             forms = {"method": lambda: x.transpose(), "T": lambda: x.T, "function": lambda: sr.transpose(x)}
